@@ -422,6 +422,40 @@ def recheck_hangs(chk, scen_name, results, classof):
     return results
 
 
+def validate_parallel(chk, model, scen, results, nproc=8, cost=None):
+    """`Check.validate` with the driver run as `nproc` processes over cost-balanced chunks (the replay of a
+    long history through the model is the slow part; same bookkeeping as core.Check.validate)."""
+    import core
+    from concurrent.futures import ThreadPoolExecutor
+    idx = sorted(range(len(results)), key=(lambda k: -cost(results[k][0])) if cost else None)
+    chunks = [idx[i::nproc] for i in range(nproc) if idx[i::nproc]]
+
+    def run(ch):
+        lines = []
+        for k in ch:
+            lines += scen.model_lines(k, results[k][0], results[k][1])
+        return core.run_driver(model, lines)
+
+    verdict = {}
+    with ThreadPoolExecutor(max(1, len(chunks))) as ex:
+        for out in ex.map(run, chunks):
+            for l in out:
+                w = l.split(' ', 2)
+                if len(w) >= 2 and w[0] in ('ok', 'REJECT', 'NOFINAL', 'MISMATCH'):
+                    verdict[w[1]] = l
+    nval = 0
+    for k, (case, res) in enumerate(results):
+        v = verdict.get(str(k))
+        if v is None:
+            chk.corr_breaks.append(dict(model=model, case=case, verdict='no answer from the driver', events=res.get('events')))
+        elif v.startswith('ok'):
+            nval += 1
+        else:
+            chk.corr_breaks.append(dict(model=model, case=case, verdict=v, events=res.get('events'), monitors=res.get('monitors')))
+    chk.cov['traces_validated_against_impl'] += nval
+    return nval, len(results)
+
+
 def run_case(case):
     res = run_inner(os.path.abspath(__file__), case, outer_bound=hang_bound(case) * 1.5 + 60)
     if res.get('infra'):
